@@ -124,6 +124,13 @@ fn outcome<T>(r: Result<T, CommandError>, show: impl Fn(&T) -> String) -> String
         Err(CommandError::InvalidTypedResponse(_)) => "typed_error".into(),
     }
 }
+/// Harness command for typed lists: request `c<letter k>`, response = (k, the frame it was given).
+struct HCmd(u8);
+impl mpd_client::commands::Command for HCmd {
+    type Response = (u8, mpd_protocol::response::Frame);
+    fn command(&self) -> Command { Command::new(std::str::from_utf8(&[b'c', 97 + self.0]).unwrap()) }
+    fn response(self, frame: mpd_protocol::response::Frame) -> Result<Self::Response, mpd_client::responses::TypedResponseError> { Ok((self.0, frame)) }
+}
 fn make_request(client: &Client, req: &str) -> ReqFut {
     let client = client.clone();
     let (kind, body) = req.split_once(':').unwrap();
@@ -135,6 +142,10 @@ fn make_request(client: &Client, req: &str) -> ReqFut {
             let mut l = CommandList::new(Command::new(names.next().unwrap()));
             for n in names { l.add(Command::new(n)); }
             outcome(client.raw_command_list(l).await, |fs| format!("frames [{}]", fs.iter().map(frame_txt).collect::<Vec<_>>().join("|")))
+        }),
+        "typed" => Box::pin(async move {
+            let cmds: Vec<HCmd> = body.split(',').filter(|s| !s.is_empty()).enumerate().map(|(k, n)| { assert_eq!(n.as_bytes(), [b'c', 97 + k as u8]); HCmd(k as u8) }).collect();
+            outcome(client.command_list(cmds).await, |rs| format!("typed [{}]", rs.iter().map(|(k, f)| format!("{}>{}", k, frame_txt(f))).collect::<Vec<_>>().join("|")))
         }),
         "art" => Box::pin(async move { outcome(client.album_art(&body).await, |o| match o { None => "none".into(), Some((d, m)) => format!("art {} {}", crate::hex(d), m.clone().unwrap_or_else(|| "-".into())) }) }),
         _ => panic!("request kind"),
@@ -240,6 +251,7 @@ pub fn client(a: &[String]) {
             else if st == "deliver/2" { deliver!(true); }
             else if let Some(n) = st.strip_prefix("change:") { server.borrow_mut().change(n.as_bytes()); change_n += 1; }
             else if st == "tick" { tokio::time::advance(Duration::from_millis(150)).await; pump!(); }
+            else if st == "longtick" { tokio::time::advance(Duration::from_secs(60)).await; pump!(); }
             else if st == "slowwrite" { flags.budget.store(1, Ordering::SeqCst); }
             else if st == "unblock" { flags.budget.store(-1, Ordering::SeqCst); if let Some(w) = flags.waker.lock().unwrap().take() { w.wake(); } }
             else if st == "dropclient" { if !clients.is_empty() { clients.remove(0); } }
